@@ -520,6 +520,9 @@ class Model:
             if has_fe([list(args), kwargs]) is not None:
                 if path in ("asarray", "array", "asanyarray"):
                     return plain(args[0]) if isinstance(args[0], FeV) else XArray.from_nested([plain(x) for x in args[0]])
+                if path == "matmul" or (path in _UF and path not in ("sum",)):
+                    # a ufunc called by name (np.matmul(a, b), np.multiply(a, b)): dispatched through __array_ufunc__
+                    return self.ufunc_call(path, tuple(args), **kwargs)
                 if path not in NOT_DISPATCHED:
                     return self.function_call(path, args, kwargs)
                 args = [plain(a) for a in args]
